@@ -143,6 +143,10 @@ def run(ctx):
                   f"{len(r['dispatch']) if r else '?'} dispatch(es), hold since {r and r['te']}; documented {want_disp} dispatch(es), hold since {want_hold}", key=f"startup {check_now}/{expr_true}/{S}/{H}",
                   node=program.func(CYC), rel="decorators/state.py")
 
+    ctx.rule("R05.11", "task.wait_until (new subsystem) with state_hold and state_hold_false: an initially true expression starts the hold at once, but the state_hold_false "
+             "rule stays in force for the rest of the wait (a false cancels the hold; a true that follows too soon is ignored) - as in the legacy subsystem", floor=2)
+    wait_hold_false_rule(ctx, program, "R05.11")
+
     ctx.rule("R05.8", "what counts as an evaluation: the change predicates that decide whether a notification starts, continues or resets a hold equal their reference "
              "definition (value / named attribute / any attribute changed - attributes that appear or disappear included)", floor=150)
     from .c04 import change_predicate_table, watched_set_table
@@ -163,7 +167,7 @@ def run(ctx):
 LEGACY_T0 = __import__("datetime").datetime(2024, 1, 1, 12, 0, 0)
 
 
-def legacy_run(program, uid, script, S, H, monos, want_waits=False, hold_off=None):
+def legacy_run(program, uid, script, S, H, monos, want_waits=False, hold_off=None, check_now=False, init=None, mono0=None):
     """One of the two legacy loops driven by a scripted queue.
     script items: ('note', any-change matched, watched changed, expression value) | ('timeout',); monos[i] is the monotonic clock while item i is processed.
     Result: set of (how the scenario ended, ((phase, arguments of the run / returned dictionary), ...))."""
@@ -199,13 +203,15 @@ def legacy_run(program, uid, script, S, H, monos, want_waits=False, hold_off=Non
         return it if it[0] == "note" else ("note", False, False, False)
 
     def mono_now(cfg):
+        if init is not None and phase(cfg) == 0:
+            return mono0  # the evaluation made when the trigger / the wait starts
         return monos[min(max(phase(cfg) - 1, 0), len(monos) - 1)]
 
     def action(interp, node, a, k, cfg, out):
         lst = cfg.heap.get("$runs", ListV(()))
         return [(cfg.hset("$runs", ListV(lst.items + (ListV((Const(phase(cfg)), a[1] if len(a) > 1 else NONE), "tuple"),))), Const(True))]
 
-    expr = lambda i, n, a, k, c, o: [(c, Const(cur(c)[3]))]  # noqa: E731
+    expr = lambda i, n, a, k, c, o: [(c, Const(init if (init is not None and phase(c) == 0) else cur(c)[3]))]  # noqa: E731
     has_guard = any(len(it) > 4 for it in script)
     guard = lambda i, n, a, k, c, o: [(c, Const(cur(c)[4] if len(cur(c)) > 4 else True))]  # noqa: E731
     def wait_for(i, n, a, k, c, o):
@@ -227,7 +233,7 @@ def legacy_run(program, uid, script, S, H, monos, want_waits=False, hold_off=Non
     pol = FlowPolicy(program, may_raise_all=False, cancel=False, summaries=summ)
     pol.loop_unroll = len(script) + 3
     if is_wait:
-        args = {"cls": ClassV("TrigTime"), "ast_ctx": ObjV("actx", "AstEval"), "state_trigger": Const("d.e == 'x'"), "state_check_now": Const(False), "time_trigger": NONE,
+        args = {"cls": ClassV("TrigTime"), "ast_ctx": ObjV("actx", "AstEval"), "state_trigger": Const("d.e == 'x'"), "state_check_now": Const(check_now), "time_trigger": NONE,
                 "event_trigger": NONE, "mqtt_trigger": NONE, "mqtt_trigger_encoding": NONE, "webhook_trigger": NONE, "webhook_local_only": Const(True), "webhook_methods": NONE,
                 "timeout": NONE, "state_hold": Const(S), "state_hold_false": Const(H), "__test_handshake__": NONE}
         heap = {"actx.name": Const("file.x.f")}
@@ -235,7 +241,7 @@ def legacy_run(program, uid, script, S, H, monos, want_waits=False, hold_off=Non
         args = {"self": ObjV("self", "TrigInfo")}
         heap = {"self.state_trigger": ListV([Const("x")]), "self.state_user_watch": NONE, "self.state_trig_eval": ObjV("expr", "AstEval"), "self.state_trig_ident": ListV((Const("d.e"),), "set"),
                 "self.state_trig_ident_any": ListV((), "set"), "self.active_expr": NONE, "self.event_trigger": NONE, "self.mqtt_trigger": NONE, "self.webhook_trigger": NONE,
-                "self.state_check_now": Const(False), "self.state_hold_false": Const(H), "self.state_hold": Const(S), "self.run_on_startup": Const(False), "self.time_trigger": NONE,
+                "self.state_check_now": Const(check_now), "self.state_hold_false": Const(H), "self.state_hold": Const(S), "self.run_on_startup": Const(False), "self.time_trigger": NONE,
                 "self.have_trigger": Const(True), "self.time_active": NONE, "self.time_active_hold_off": Const(hold_off), "self.notify_q": ObjV("q", "Queue"),
                 "self.state_trigger_kwargs": DictV(()), "self.name": Const("file.x.f")}
         if has_guard:
@@ -268,7 +274,19 @@ LEGACY_SCENARIOS = [
     ("hold_false: true again before H elapsed is ignored", [("note", False, True, False), ("note", False, True, True)], None, 3.0, [100.0, 101.0], []),
     ("hold_false: true again exactly H later runs", [("note", False, True, False), ("note", False, True, True)], None, 3.0, [100.0, 103.0], [(2, "v1")]),
     ("hold_false: true again after H runs", [("note", False, True, False), ("note", False, True, True)], None, 3.0, [100.0, 104.0], [(2, "v1")]),
+    ("hold + hold_false: after a long enough false period the hold starts and its expiry runs", [("note", False, True, False), ("note", False, True, True), ("timeout",)], 5.0, 3.0, [100.0, 104.0, 109.0], [(3, "v1")]),
+    ("hold + hold_false: a false evaluation during the hold cancels the pending run", [("note", False, True, False), ("note", False, True, True), ("note", False, True, False), ("timeout",)], 5.0, 3.0,
+     [100.0, 104.0, 105.0, 109.5], []),
     ("hold_false: true -> true without a false period in between does not run", [("note", False, True, False), ("note", False, True, True), ("note", False, True, True)], None, 3.0, [100.0, 104.0, 105.0], [(2, "v1")]),
+]
+
+
+LEGACY_START_SCENARIOS = [
+    # label, state_check_now, value at the start, clock at the start, script, state_hold, state_hold_false, clock per item, expected runs
+    ("hold_false, state_check_now: false at the start begins the false period", True, False, 100.0, [("note", False, True, True)], None, 3.0, [104.0], [(1, "v0")]),
+    ("hold_false, no state_check_now: false at the start begins the false period", False, False, 100.0, [("note", False, True, True)], None, 3.0, [104.0], [(1, "v0")]),
+    ("hold_false, state_check_now: true too soon after a false start is ignored", True, False, 100.0, [("note", False, True, True)], None, 3.0, [101.0], []),
+    ("hold_false=0, state_check_now: false at the start, then true, runs", True, False, 100.0, [("note", False, True, True)], None, 0, [100.5], [(1, "v0")]),
 ]
 
 
@@ -276,6 +294,13 @@ def legacy_hold_rules(ctx, program, rid, uids=("trigger.py::TrigInfo.trigger_wat
     """The legacy loops interpreted on scripted notification histories (shared with C15 for wait_until)."""
     for uid in uids:
         is_wait = uid.endswith("wait_until")
+        for label, check_now, init, mono0, script, S, H, monos, want in LEGACY_START_SCENARIOS:
+            got = legacy_run(program, uid, script, S, H, monos, check_now=check_now, init=init, mono0=mono0)
+            runs = {r for _, r in got}
+            ctx.check(runs == {tuple(want)}, rid, uid, f"{'wait_until' if is_wait else 'trigger_watch'}: {label}",
+                      msg=f"{uid} started at {mono0} with the expression {init} (state_check_now={check_now}, state_hold={S}, state_hold_false={H}), then {script} at {monos}: runs {sorted(runs)}, "
+                      f"specified {[tuple(want)]} (documented: the expression is evaluated immediately; if False the state_hold_false period begins)", key=f"legacy start {label}",
+                      node=program.func(uid), rel="trigger.py")
         for label, script, S, H, monos, want in LEGACY_SCENARIOS:
             if is_wait and len(want) > 1:
                 continue
@@ -284,7 +309,7 @@ def legacy_hold_rules(ctx, program, rid, uids=("trigger.py::TrigInfo.trigger_wat
             # wait_until returns at the first run; trigger_watch keeps looping
             exp = tuple(want[:1]) if is_wait else tuple(want)
             ok = runs == {exp}
-            if S is not None and script[-1] == ("timeout",) and len(script) == 3 and want:
+            if S is not None and H is None and script[-1] == ("timeout",) and len(script) == 3 and want:
                 _, waits = legacy_run(program, uid, script, S, H, monos, want_waits=True)
                 exp_w = (round(S - (monos[0] - monos[0]), 6), round(S - (monos[1] - monos[0]), 6))
                 ctx.check(waits == {exp_w}, rid, uid, f"{'wait_until' if is_wait else 'trigger_watch'}: waits armed for the remaining hold time ({label.split(':')[1].strip()[:40]})",
@@ -314,7 +339,7 @@ def hold_expiry_rule(ctx, program, rid):
               node=program.func(CYC), rel="decorators/state.py")
 
 
-def _cycle_run(program, script, te, fe, S, H, times, check_now=False, expr_true=True, from_start=False):
+def _cycle_run(program, script, te, fe, S, H, times, check_now=False, expr_true=True, from_start=False, in_wait=False):
     """Run _cycle with a scripted queue: ('note', func_args, any, changed, expr_true) | ('timeout',) | ('stop',)."""
     def phase(cfg):
         return cfg.heap.get("$phase", Const(0)).v
@@ -379,7 +404,7 @@ def _cycle_run(program, script, te, fe, S, H, times, check_now=False, expr_true=
     pol.loop_unroll = len(script) + 3
     heap = {"self.state_check_now": Const(check_now), "self.state_hold_false": Const(H), "self.state_hold": Const(S), "self.__test_handshake__": NONE,
             "self.dm": ObjV("dm", "DecoratorManager"), "dm.status": Sym(("clsattr", "DecoratorManagerStatus", "RUNNING")), "self.state_trig_ident": ListV((), "set"),
-            "self.state_trig_ident_any": ListV((), "set"), "self.notify_q": ObjV("q", "Queue"), "self.in_wait_until_function": Const(False), "$phase": Const(0 if not from_start else 0)}
+            "self.state_trig_ident_any": ListV((), "set"), "self.notify_q": ObjV("q", "Queue"), "self.in_wait_until_function": Const(in_wait), "$phase": Const(0 if not from_start else 0)}
     fn = program.func(CYC)
     if from_start:
         out = run_flow(program, CYC, pol, args={"self": ObjV("self", "StateTriggerDecorator")}, heap=heap)
@@ -406,3 +431,17 @@ def _cycle_run(program, script, te, fe, S, H, times, check_now=False, expr_true=
     return {"dispatch": list(c.heap.get("$dispatched", ListV(())).items), "te": te2.v if isinstance(te2, Const) else repr(te2), "fe": fe2.v if isinstance(fe2, Const) else repr(fe2),
             "args": c.heap.get("self.last_func_args"), "dispatch_vars": list(c.heap.get("$dispatched_vars", ListV(())).items),
             "timeouts": [t.v if isinstance(t, Const) else repr(t) for t in c.heap.get("$timeouts", ListV(())).items]}
+
+
+def wait_hold_false_rule(ctx, program, rid):
+    """StateTriggerDecorator._cycle from its start inside a wait: true at the start (hold begins), false, true again too soon, true again later."""
+    for label, script, times, want in (
+        ("true at the start, false, true 2 s later (< hold_false), still true later", [("note", A1, False, True, False), ("note", A2, False, True, True), ("note", A2, False, True, True), ("stop",)],
+         [100.0, 102.0, 109.0], 0),
+        ("true at the start, an update that changes nothing watched, then nothing: the hold expires", [("note", A1, False, False, False), ("timeout",), ("stop",)], [100.0, 105.5], 1),
+    ):
+        r = _cycle_run(program, script, te=None, fe=None, S=5.0, H=3.0, times=times, check_now=True, expr_true=True, from_start=True, in_wait=True)
+        n = len(r["dispatch"]) if r else None
+        ctx.check(r is not None and n == want, rid, CYC, f"wait_until: {label}",
+                  msg=f"task.wait_until(state_hold=5, state_hold_false=3) in the new subsystem, expression {label} (clock {times}): {n} return(s), specified {want}: "
+                  "after an initially true expression the state_hold_false rule is switched off for the whole wait", key=f"wait hold_false {label}", node=program.func(CYC), rel="decorators/state.py")
